@@ -310,6 +310,31 @@ def install_constructor():
             return f
         setattr(gb.GraphBasedModelConstructor, nm, mk(orig, nm))
 
+    def duplicate_oracle(self):
+        """for every ordered pair of reported novel models of more than two exons with one strand and one intron chain: the verdict
+        is_matching_assignment(assigner.assign_to_isoform(m ...)) against GeneInfo.from_models([model]) computed exactly the way
+        detect_similar_isoforms does (same classes of the tree under test, same polyA info) - whether the pair WOULD be collapsed
+        when compared.  Pure: nothing of the constructor is changed."""
+        from src.polya_finder import PolyAInfo
+        out = []
+        novel = [m for m in self.transcript_model_storage if m.transcript_type != TranscriptModelType.known and len(m.exon_blocks) > 2]
+        def chain(m): return tuple((a[1] + 1, b[0] - 1) for a, b in zip(m.exon_blocks, m.exon_blocks[1:]))
+        for model in novel:
+            for m in novel:
+                if m is model or m.strand != model.strand or chain(m) != chain(model): continue
+                try:
+                    gi = gb.GeneInfo.from_models([model], self.params.delta)
+                    assigner = gb.LongReadAssigner(gi, self.params)
+                    pc = gb.CombinedProfileConstructor(gi, self.params)
+                    if m.intron_path and m.intron_path[0][0] == ig.VERTEX_polyt: polya_info = PolyAInfo(-1, m.intron_path[0][1], -1, -1)
+                    elif m.intron_path and m.intron_path[-1][0] == ig.VERTEX_polya: polya_info = PolyAInfo(m.intron_path[-1][1], -1, -1, -1)
+                    else: polya_info = PolyAInfo(-1, -1, -1, -1)
+                    a = assigner.assign_to_isoform(m.transcript_id, pc.construct_profiles(m.exon_blocks, polya_info, []))
+                    out.append([m.transcript_id, model.transcript_id, bool(is_matching_assignment(a))])
+                except Exception as e:
+                    out.append([m.transcript_id, model.transcript_id, None, repr(e)])
+        return out
+
     orig_proc = gb.GraphBasedModelConstructor.process
     SEQ = [0]
     def process(self, read_assignment_storage):
@@ -324,7 +349,8 @@ def install_constructor():
                        r2t=[[t, [a.read_id for a in l]] for t, l in self.transcript_read_ids.items()],
                        unassigned=[rid for rid, c in self.read_assignment_counts.items() if c == 0],
                        counter={t: int(v) for t, v in self.internal_counter.items()},
-                       final_vertices=sorted(_iv(v) for v in g.intron_collector.clustered_introns.keys()))
+                       final_vertices=sorted(_iv(v) for v in g.intron_collector.clustered_introns.keys()),
+                       dup_oracle=duplicate_oracle(self))
             return r
         except BaseException as e:
             rec["raised"] = type(e).__name__
